@@ -48,7 +48,7 @@ EXOTIC_LOCALS = ["arguments", "eval", "static", "let", "of", "undefined", "NaN",
                  "_tmp", "_tuple", "_index", "_ptr", "_struct", "_slice", "_val", "_i", "_ref", "_key", "_r", "_q", "_v",
                  "_entry", "x", "y", "obj", "param", "$_", "é", "变", "ñ9", "Ω_1", "a·b"]
 EXOTIC_LOCALS = [n for n in EXOTIC_LOCALS if "$" not in n and "·" not in n]
-PLAIN_LOCALS = ["v%d" % i for i in range(8)] + ["k", "n", "w", "acc", "idx", "tmp", "lo", "hi"]
+PLAIN_LOCALS = ["v%d" % i for i in range(8)] + ["k", "n", "w", "acc", "idx", "tmp", "lo", "hi", "i", "j", "row", "col", "cur", "nxt"]
 EXOTIC_GLOBALS = ["arguments", "eval", "static", "let", "of", "undefined", "async", "await", "yield", "name", "self", "window",
                   "global", "process", "require", "module", "length", "constructor", "prototype", "toString", "valueOf",
                   "this", "new", "delete", "typeof", "void", "with", "class", "enum", "super", "throw", "try", "function",
@@ -57,7 +57,7 @@ LABEL_NAMES = ["class", "let", "static", "enum", "await", "arguments", "eval", "
                "typeof", "void", "with", "yield", "super", "throw", "try", "catch", "do", "while", "in", "function"]
 # names the generated helper code uses; never handed out as variable names
 HELPERS = {"at", "ix", "tr", "pg", "ps", "cnd", "cnq", "cl", "push", "runfs", "two", "h3", "P", "S", "T", "arr", "mp", "sv", "sl",
-           "fs", "tv", "main", "r", "myInt", "idxs", "mkP", "pint", "sb", "ip", "sp", "any"}
+           "fs", "tv", "main", "r", "myInt", "idxs", "mkP", "pint", "sb", "ip", "sp", "any", "pp", "ppush", "runpp"}
 
 
 class Gen:
@@ -73,6 +73,7 @@ class Gen:
         self.fns = []       # dict(body, names[8], labels{n: name})
         self.kinds = {}
         self.gnames = []
+        self.hidden = set()     # actions a Go `range` header performs implicitly (not rendered)
 
     def count(self, k):
         self.kinds[k] = self.kinds.get(k, 0) + 1
@@ -98,7 +99,10 @@ class Gen:
         r = self.rng
         w = {"plain": 4, "opassign": 4, "swap": 1, "rotate": 0.7, "tuple": 0.8}
         if not simple:
-            w.update({"evalorder": 2.5, "closure": 0.8, "runfs": 0.5, "shadow": 1.2})
+            w.update({"evalorder": 2.5, "closure": 0.8, "runfs": 0.5, "shadow": 1.2, "runpp": 0.4})
+            if getattr(self, "_hdrs", None):
+                # closures / pointers capturing loop HEADER variables of the enclosing loops (inner and outer)
+                w.update({"capture-closure": 2.5, "capture-pointer": 2.0})
         for k, f in self.focus.get("act", {}).items():
             if k in w:
                 w[k] *= f
@@ -149,6 +153,18 @@ class Gen:
             return self.add_act([5, self.anyvar(), r.randrange(1, 9), 0, 0, 0])
         if k == "runfs":
             return self.add_act([6, 0, 0, 0, 0, 0])
+        if k == "runpp":
+            return self.add_act([13, 0, 0, 0, 0, 0])
+        if k in ("capture-closure", "capture-pointer"):
+            cv, is_range, depth_of = r.choice(self._hdrs)
+            v = cv if not is_range or r.random() < 0.5 else cv + 25       # K (4+ld) or the range value V (29+ld)
+            inner = depth_of == len(self._hdrs) - 1
+            self.count("capture:%s:%s-loop %s header variable%s" % (
+                "closure" if k == "capture-closure" else "pointer", "range" if is_range else "for",
+                "inner" if inner else "outer", " at nesting depth %d" % len(self._hdrs)))
+            if k == "capture-closure":
+                return self.add_act([11, v, r.randrange(1, 9), 0, 0, 0])
+            return self.add_act([12, v, 0, 0, 0, 0])
         if k == "shadow":
             x = self.namedvar()
             dst = r.choice([v for v in [0, 1, 2, 3, 8, 9, 10, 11] if v != x])
@@ -180,6 +196,7 @@ class Gen:
     def stmt(self, ctx, may_branch):
         r = self.rng
         self._ld = ctx["ld"]
+        self._hdrs = ctx.get("hdrs", [])
         ctx["budget"][0] -= 1
         d = ctx["depth"]
         w = {"act": 7}
@@ -277,14 +294,30 @@ class Gen:
         cv = 4 + ld
         lab = self.new_label() if r.random() < 0.55 else None
         refs = []
+        is_range = r.random() < 0.3
+        c2 = dict(ctx, depth=ctx["depth"] + 1, ld=ld + 1, loops=ctx["loops"] + [(lab, refs)], brk=ctx["brk"] + [(lab, refs)],
+                  hdrs=ctx.get("hdrs", []) + [(cv, is_range, ld)])
+        if is_range:
+            # for K, V := range [n]int{c, c+3, ...}: header variables K, V (Go 1.20: one pair per execution of the statement),
+            # hidden index 32+ld; in the term: cond `idx < n`, body prefix K = idx; V = 3*idx + c, post idx++
+            n, c = r.choice([2, 3]), r.randrange(0, 20)
+            self.count("loop:range")
+            alloc = self.add_act([10, ld, 0, 1, n, c])
+            cond = self.new_cond(x=32 + ld, k=0, m=MODV, t=n, p=0)
+            ak = self.add_act([0, cv, 32 + ld, ZERO, 0, 0])
+            av = self.add_act([0, 29 + ld, 32 + ld, 32 + ld, c, 0])
+            post = self.add_act([0, 32 + ld, 32 + ld, ZERO, 1, 0])
+            self.hidden.update([ak, av, post])
+            body = [("A", ak), ("A", av)] + self.stmts(c2, r.randrange(1, 4))
+            return ("{", [("A", alloc), ("L", lab if refs else None, cond, ("a", post), body)])
         bound = r.randrange(1, 4)
         variant = r.choice(["post-act", "post-act", "post-opassign", "post-call", "cond-only", "forever"])
         if variant == "post-call" and ctx["fi"] + 1 >= ctx["nf"]:
             variant = "post-act"
         self.count("loop:" + variant)
-        init = ("A", self.add_act([0, cv, ZERO, ZERO, 0, 0]))
+        # `for H := at(id, 0); …`: H is a header variable, created once per execution of the for statement
+        init = ("A", self.add_act([10, ld, 0, 0, 0, 0]))
         cond = self.new_cond(x=cv, k=0, m=MODV, t=bound, p=1 if r.random() < 0.3 else 0)
-        c2 = dict(ctx, depth=ctx["depth"] + 1, ld=ld + 1, loops=ctx["loops"] + [(lab, refs)], brk=ctx["brk"] + [(lab, refs)])
         pre = []
         post = None
         lc = cond
@@ -321,7 +354,7 @@ class Gen:
         l0 = self.nlabels
         body = self.stmts(ctx, self.rng.randrange(2, 6), tail_branch=False)
         body.append(("R",))
-        names = self.pick_names(EXOTIC_LOCALS, PLAIN_LOCALS, 8, set(self.gnames))
+        names = self.pick_names(EXOTIC_LOCALS, PLAIN_LOCALS, 11, set(self.gnames))
         labels = {}
         used = set()
         for n in range(l0 + 1, self.nlabels + 1):
@@ -473,8 +506,23 @@ func pg(id, x int) *int {
 	return &%(G3)s
 }
 
+var pp []*int
+
+func ppush(id int, p *int) {
+	if len(pp) < 12 {
+		pp = append(pp, p)
+	}
+}
+
+func runpp(id int) {
+	for _, p := range pp {
+		*p += 1
+		println("q", id, *p)
+	}
+}
+
 func push(id int, f func() int) {
-	if len(fs) < 6 {
+	if len(fs) < 12 {
 		fs = append(fs, f)
 	}
 }
@@ -526,6 +574,10 @@ class Render:
             return self.g.gnames[v - 8]
         if v == ZERO:
             return "0"
+        if 29 <= v <= 31:
+            return self.names[8 + v - 29]          # range value variable of the loop at depth v-29
+        if v >= 32:
+            raise AssertionError("the hidden range index is never rendered")
         return CELLS[(v - 13) // 4] % ((v - 13) % 4)
 
     def cond(self, cid):
@@ -586,6 +638,14 @@ class Render:
             return ["{ j := %s; push(%d, func() int { j += %d; return j }) }" % (vn(a), aid, b)]
         if kind == 6:
             return ["runfs(%d)" % aid]
+        if kind == 10:
+            return ["%s := at(%d, %d)" % (vn(4 + a), aid, b)]
+        if kind == 11:
+            return ["push(%d, func() int { %s += %d; return %s })" % (aid, vn(a), b, vn(a))]
+        if kind == 12:
+            return ["ppush(%d, &%s)" % (aid, vn(a))]
+        if kind == 13:
+            return ["runpp(%d)" % aid]
         if kind == 7:
             dst, x, k = a, b, c
             n = vn(x)
@@ -616,6 +676,8 @@ class Render:
                 self.emit(ind, l)
         elif k == "C":
             self.emit(ind, self.call_stmt(s[1]))
+        elif k == "{" and len(s[1]) == 2 and s[1][0][0] == "A" and self.g.acts[s[1][0][1]][0] == 10 and s[1][1][0] == "L":
+            self.header_loop(s[1][0][1], s[1][1], ind)
         elif k == "{":
             self.emit(ind, "{")
             self.block(s[1], ind + 1)
@@ -656,6 +718,27 @@ class Render:
         else:
             raise AssertionError(k)
 
+    def header_loop(self, alloc, L, ind):
+        """`for H := init; cond; post { … }` / `for K, V := range [n]int{…} { … }`: the loop DECLARES its header variables"""
+        _, ld, k0, is_range, n, c = self.g.acts[alloc]
+        if L[1] is not None:
+            self.emit(max(ind - 1, 0), self.labels[L[1]] + ":")
+        if is_range:
+            kn, vname = self.vn(4 + ld), self.vn(29 + ld)
+            self.emit(ind, "for %s, %s := range [%d]int{%s} {" % (kn, vname, n, ", ".join(str(c + 3 * i) for i in range(n))))
+            self.emit(ind + 1, "_, _ = %s, %s" % (kn, vname))
+            self.block([x for x in L[4] if not (x[0] == "A" and x[1] in self.g.hidden)], ind + 1)
+            self.emit(ind, "}")
+            return
+        init = self.act_lines(alloc)[0]
+        cond = "" if L[2] is None else self.cond(L[2])
+        post = ""
+        if L[3] is not None:
+            post = self.act_lines(L[3][1])[0] if L[3][0] == "a" else self.call_stmt(L[3][1])
+        self.emit(ind, "for %s; %s; %s {" % (init, cond, post))
+        self.block(L[4], ind + 1)
+        self.emit(ind, "}")
+
     def render_if(self, s, ind, kw):
         self.emit(ind, "%s %s {" % (kw, self.cond(s[1])))
         self.block(s[2], ind + 1)
@@ -678,8 +761,8 @@ class Render:
             self.labels = f["labels"]
             n = self.names
             self.emit(0, "func F%d(%s int) int {" % (fi, n[0]))
-            self.emit(1, "var %s int" % ", ".join(n[1:]))
-            self.emit(1, "%s = %s" % (", ".join(["_"] * 7), ", ".join(n[1:])))
+            self.emit(1, "var %s int" % ", ".join(n[1:8]))
+            self.emit(1, "%s = %s" % (", ".join(["_"] * 7), ", ".join(n[1:8])))
             self.block(f["body"], 1)
             self.emit(0, "}")
             self.emit(0, "")
@@ -693,6 +776,8 @@ class Render:
         self.emit(1, "r := F0(0)")
         self.emit(1, 'println("r", r, %s)' % ", ".join(gn))
         self.emit(1, "runfs(0)")
+        self.emit(1, "runpp(0)")
+        self.emit(1, "runfs(1)")
         self.emit(1, 'println("m", %s)' % ", ".join(c % i for c in CELLS for i in range(4)))
         self.emit(0, "}")
         return "\n".join(self.out) + "\n"
@@ -706,7 +791,7 @@ def render(g):
 # skeleton of the emitted JavaScript
 # --------------------------------------------------------------------------------------
 
-_MARK = re.compile(r"(?<![\w$.])(at|ix|tr|pg|ps|push|runfs|cl|cnd|cnq)\((\d+)[,)]")
+_MARK = re.compile(r"(?<![\w$.])(at|ix|tr|pg|ps|push|ppush|runfs|runpp|cl|cnd|cnq)\((\d+)[,)]")
 # a desugaring temporary is a STATEMENT `tmp = operand;` (temporaries of translateExpr live inside expressions)
 _TMPDEF = re.compile(r"^(_slice|_index|_struct|_ptr|_val)(?:\$\d+)? = ")
 _LABEL_LINE = re.compile(r"^([^\s:(){};=]+):$")
@@ -1058,6 +1143,11 @@ def program_batch(chk, gens, label, scratch, skeleton=True):
                     continue
                 chk.count("fn:direct")
                 toks, tmps = js_skeleton(fb, f["labels"])
+                if has_range(g, f["body"]):
+                    # the header of a Go range loop (hidden index, key / value assignment) carries no markers
+                    chk.count("skeleton:skipped(function with a range loop)")
+                    check_tmps(chk, g, r["id"], fi, tmps, toks)
+                    continue
                 want = mskels[fi].split(" ") if mskels[fi] else []
                 chk.add_case("skeleton", "%s F%d %s" % (r["id"], fi, mskels[fi]), nontrivial=len(want) > 3,
                              kindkey="skeleton", sample={"tie": "skeleton", "op": "%s F%d" % (r["id"], fi),
@@ -1067,6 +1157,21 @@ def program_batch(chk, gens, label, scratch, skeleton=True):
                                       " ".join(toks), mskels[fi])
                 check_tmps(chk, g, r["id"], fi, tmps, toks)
     return nfail
+
+
+def has_range(g, stmts):
+    for st in stmts:
+        if st[0] == "A" and g.acts[st[1]][0] == 10 and g.acts[st[1]][3] == 1:
+            return True
+        if st[0] == "{" and has_range(g, st[1]):
+            return True
+        if st[0] == "I" and (has_range(g, st[2]) or (st[3] is not None and has_range(g, [st[3]]))):
+            return True
+        if st[0] == "L" and has_range(g, st[4]):
+            return True
+        if st[0] == "W" and (any(has_range(g, b) for _, b in st[2]) or (st[3] is not None and has_range(g, st[3]))):
+            return True
+    return False
 
 
 _DS_CACHE = {}
